@@ -444,22 +444,31 @@ def encodeInvalidChars (comp : Str) (allowed : List Nat) : Str :=
 
 def notQH (c : Nat) : Bool := !(c == 63 || c == 35)
 
+/-- group 2 of `_TARGET_RE` given what follows the path: the query (up to `#`), if there is a `?` -/
+def targetQuery : Str → Option Str
+  | 63 :: q => some (q.takeWhile (· != 35))
+  | _ => none
+
+/-- what follows the (optional) query -/
+def targetAfterQuery : Str → Str
+  | 63 :: q => q.dropWhile (· != 35)
+  | r => r
+
+/-- `(?:#.*)?$` without DOTALL: a fragment may contain a line feed only as its very last character -/
+def targetFragOk : Str → Bool
+  | 35 :: f => let rest := f.dropWhile (· != 10); rest == [] || rest == [10]
+  | _ => true
+
 /-- `_encode_target(target)`; `_TARGET_RE = ^(/[^?#]*)(?:\?([^#]*))?(?:#.*)?$` has no DOTALL: a
 fragment with a line feed anywhere but at the very end makes the match fail. -/
 def encodeTarget (target : Str) : Except Exc Str :=
   match target with
   | 47 :: _ =>
-    let path := target.takeWhile notQH
-    let r1 := target.dropWhile notQH
-    let (query, r2) : Option Str × Str := match r1 with
-      | 63 :: q => (some (q.takeWhile (· != 35)), q.dropWhile (· != 35))
-      | _ => (none, r1)
-    let fragOk : Bool := match r2 with
-      | 35 :: f => let rest := f.dropWhile (· != 10); rest == [] || rest == [10]
-      | _ => true
-    if !fragOk then .error .locationParseError
-    else .ok (encodeInvalidChars path Gen.wirePathChars ++
-              (match query with | some q => 63 :: encodeInvalidChars q Gen.wireQueryChars | none => []))
+    if !targetFragOk (targetAfterQuery (target.dropWhile notQH)) then .error .locationParseError
+    else .ok (encodeInvalidChars (target.takeWhile notQH) Gen.wirePathChars ++
+              (match targetQuery (target.dropWhile notQH) with
+               | some q => 63 :: encodeInvalidChars q Gen.wireQueryChars
+               | none => []))
   | _ => .error .locationParseError
 
 /-- `_remove_path_dot_segments` -/
